@@ -303,6 +303,10 @@ class HTTP1Connection(httputil.HTTPConnection):
             gen_log.info("Malformed HTTP message from %s: %s", self.context, e)
             if not self.is_client:
                 await self.stream.write(b"HTTP/1.1 400 Bad Request\r\n\r\n")
+            else:
+                # The delegate is waiting for a response, even if we did not
+                # get as far as headers_received: tell it none will come.
+                need_delegate_close = True
             self.close()
             return False
         finally:
